@@ -68,13 +68,10 @@ Theorem c07_prefix_example : forall k, (k < length (cprint 1 ex_tree))%nat -> pa
 Proof. exact ex_tree_prefixes. Qed.
 Print Assumptions c07_prefix_example.
 
-(* stated, NOT proved (correspondence only: every structural closing bracket of every generated
-   document is swapped / removed and every separator blanked on every run of the check) *)
-Definition c07_wrong_bracket_rejected_stmt : Prop :=
-  forall w c pre post b, cval_wf w c = true -> reals_ok c -> is_container c = true ->
-  cprint w c = pre ++ b :: post -> (b = jc_esquare \/ b = jc_ecurly) ->
-  (* b a structural bracket (not inside a string) *) True ->
-  parse w (pre ++ post) = JOk JUndef.
+(* NOT proved (correspondence only): a closing bracket in the MIDDLE of a document replaced by the
+   other kind or removed, a separator blanked.  The check damages every structural closing bracket
+   and every separator of every generated document on every run (C++ and model must both say
+   Undefined).  The outermost closing bracket removed is the case k = length - 1 above. *)
 
 (* the inputs of D2 and D61 *)
 Example c07_d2_rejected : parse 0 [91; 91; 49; 32; 50; 93] = JOk JUndef /\ parse 0 [123; 34; 97; 34; 58; 91; 49; 32; 50; 125] = JOk JUndef.
